@@ -265,6 +265,10 @@ pub fn run_case(lines: &[String], out: &mut String) {
                             Ok(()) => "ok unit".into(),
                             Err(e) => format!("err {}", show_err(&e)),
                         },
+                        "send" => match w.send(parse_message(&body[1..])) {
+                            Ok(()) => "ok unit".into(),
+                            Err(e) => format!("err {}", show_err(&e)),
+                        },
                         "flush" => match w.flush() {
                             Ok(()) => "ok unit".into(),
                             Err(e) => format!("err {}", show_err(&e)),
